@@ -921,6 +921,11 @@ func (s *Service) processCreateIteratorRequest(conn net.Conn) {
 	// Stream iterator to connection.
 	if err := encoder.EncodeIterator(itr); err != nil {
 		s.Logger.Error("Error encoding CreateIterator iterator", zap.Error(err))
+		// The point stream has no end marker: just closing the connection reads as the
+		// normal end of the data on the requesting node, and its query would return a
+		// partial result without an error. Send a frame that cannot be decoded so that
+		// the reader fails instead.
+		conn.Write([]byte{0, 0, 0, 1, 0xFF})
 		return
 	}
 
